@@ -37,6 +37,7 @@ fn main() {
         ("record", "c04") => c04::record(rest),
         ("replay", "c07") => c07::replay(rest),
         ("topo", "c07") => c07::topo(rest),
+        ("probes", "c07") => c07::probes(rest),
         ("replay", "c08") => c08::replay(rest),
         ("replay", "c20") => c20::replay(rest),
         ("replay", "c10") => c10::replay(rest),
